@@ -54,6 +54,17 @@ def gen_cases(tier, seed):
         k = int(rng.integers(1, 40))
         lin = rng.integers(0, int(np.prod(shp)), size=k)
         yield {"w": "index_random", "shape": list(shp), "lin": lin.tolist()}
+    # subscripts held in narrow integer types and index spaces beyond their range (the linear index must not inherit the type), both
+    # memory orders; very large index spaces in int64
+    wide = [("int8", [10, 13]), ("int8", [100, 100]), ("uint8", [200, 3]), ("int16", [300, 200]), ("uint16", [50000, 3, 2]), ("int32", [70000, 70000]),
+            ("int32", [2, 3, 4]), ("int64", [2 ** 31, 2 ** 31]), ("int64", [3, 2 ** 40, 5]), ("int16", [7, 9, 11, 13, 17])]
+    for dt, shp in wide:
+        for order in ("F", "C"):
+            for _ in range(1 if tier == "quick" else 6):
+                yield {"w": "index_wide", "shape": shp, "dtype": dt, "order": order, "k": int(rng.integers(1, 30)), "cseed": int(rng.integers(0, 2 ** 31))}
+    # row-set helpers well beyond toy sizes (any blocking / chunking of the comparison must be invisible)
+    for na, nb, ncol in ([(5000, 3500, 2), (20000, 900, 1)] if tier == "quick" else [(5000, 3500, 2), (20000, 900, 1), (3000, 3000, 3), (9000, 2500, 2), (60000, 300, 1)]):
+        yield {"w": "rows_large", "na": na, "nb": nb, "ncol": ncol, "cseed": int(rng.integers(0, 2 ** 31))}
     # tt_dimscheck
     maxN = 4 if tier == "quick" else 5
     for N in range(1, maxN + 1):
@@ -140,6 +151,63 @@ def run_case(case, ctx):
         ctx.check(same(np.asarray(subs), wantsubs), "tt_ind2sub", "WRONG", "ind2sub differs (random indices with repeats)")
         back = ctx.must("tt_sub2ind", U.tt_sub2ind, shape, wantsubs.copy())
         ctx.check(same(np.asarray(back).reshape(-1), lin), "tt_sub2ind", "WRONG", "sub2ind differs (random)")
+    elif w == "index_wide":
+        shape = tuple(int(x) for x in case["shape"])
+        rng = np.random.default_rng(case["cseed"])
+        dt = np.dtype(case["dtype"])
+        order = case["order"]
+        ctx.feat(dtype=case["dtype"], order=order, beyond_dtype=bool(int(np.prod([int(x) for x in shape], dtype=object)) > np.iinfo(dt).max))
+        subs_py = [[int(rng.integers(0, min(s_, np.iinfo(dt).max + 1))) for s_ in shape] for _ in range(case["k"])]
+        subs_py.append([min(s_, np.iinfo(dt).max + 1) - 1 for s_ in shape])          # the far corner that is still representable
+        subs = np.array(subs_py, dtype=dt)
+
+        def lin(sub):
+            v, mul = 0, 1
+            for s_, x in (zip(shape, sub) if order == "F" else zip(reversed(shape), reversed(sub))):
+                v += x * mul
+                mul *= s_
+            return v
+        want = [lin(sub) for sub in subs_py]
+        r = ctx.call("tt_sub2ind", U.tt_sub2ind, shape, subs.copy(), **({} if order == "F" else {"order": "C"}))
+        if not r.ok:
+            ctx.check(False, "tt_sub2ind", "RAISE:" + type(r.exc).__name__, f"{type(r.exc).__name__}: {r.exc}")
+            return
+        got = [int(x) for x in np.asarray(r.value).reshape(-1)]
+        ctx.check(got == want, "tt_sub2ind", "WRONG", f"shape {shape} {case['dtype']} subscripts {subs_py[:3]}...: linear indices {got[:3]} want {want[:3]} (exact integer arithmetic)")
+        r2 = ctx.call("tt_ind2sub", U.tt_ind2sub, shape, np.array(want, dtype=np.int64), **({} if order == "F" else {"order": "C"}))
+        if r2.ok:
+            ctx.check(np.asarray(r2.value).astype(object).tolist() == subs_py, "tt_ind2sub", "WRONG", f"shape {shape}: ind2sub of the exact linear indices does not return the subscripts")
+        else:
+            ctx.check(False, "tt_ind2sub", "RAISE:" + type(r2.exc).__name__, f"{type(r2.exc).__name__}: {r2.exc}")
+    elif w == "rows_large":
+        rng = np.random.default_rng(case["cseed"])
+        na, nb, ncol = case["na"], case["nb"], case["ncol"]
+        hi = int((nb * 1.6) ** (1.0 / ncol)) + 2
+        B = np.unique(rng.integers(0, hi, size=(nb, ncol)), axis=0)
+        B = B[rng.permutation(B.shape[0])]
+        A = rng.integers(0, hi, size=(na, ncol))
+        where = {tuple(row): i for i, row in enumerate(B.tolist())}
+        ctx.feat(ncol=ncol, compares=("2^24+" if na * B.size > 2 ** 24 else "small"))
+        r = ctx.call("tt_ismember_rows", U.tt_ismember_rows, A.copy(), B.copy())
+        if r.ok:
+            matched, loc = r.value
+            wl = np.array([where.get(tuple(row), -1) for row in A.tolist()])
+            ctx.check(len(matched) == na and bool(np.array_equal(np.asarray(loc).reshape(-1), wl)) and bool(np.array_equal(np.asarray(matched).reshape(-1).astype(bool), wl >= 0)),
+                      "tt_ismember_rows", "WRONG", lambda: f"{na} search rows against {B.shape[0]} distinct rows: first mismatch at search row "
+                      f"{int(np.nonzero((np.asarray(loc).reshape(-1) != wl) | (np.asarray(matched).reshape(-1).astype(bool) != (wl >= 0)))[0][0])}")
+        else:
+            ctx.check(False, "tt_ismember_rows", "RAISE:" + type(r.exc).__name__, f"{r.exc}")
+        Au = np.unique(A, axis=0)
+        Au = Au[rng.permutation(Au.shape[0])]
+        sa = [tuple(x) for x in Au.tolist()]
+        for op, fn, wantset in (("tt_intersect_rows", U.tt_intersect_rows, set(sa) & set(where)), ("tt_setdiff_rows", U.tt_setdiff_rows, set(sa) - set(where))):
+            r = ctx.call(op, fn, Au.copy(), B.copy())
+            if not r.ok:
+                ctx.check(False, op, "RAISE:" + type(r.exc).__name__, f"{r.exc}")
+                continue
+            idx = [int(i) for i in np.asarray(r.value).reshape(-1)]
+            ok = all(0 <= i < len(sa) for i in idx) and len(set(idx)) == len(idx) and {sa[i] for i in idx} == wantset
+            ctx.check(ok, op, "WRONG", f"{len(sa)} rows against {B.shape[0]}: selected {len(idx)} rows, want {len(wantset)}")
     elif w == "dimscheck":
         N, how, dims, M = case["N"], case["how"], case["dims"], case["M"]
         kw = {}
